@@ -51,6 +51,7 @@ def attach():
 
 class C14(Prop):
     id = "C14"
+    tour_every = 5
     level = "exploration"
     technique = "exhaustive enumeration of all 1440x1440 pairs through the real calc_duration under a runtime contract"
     rule = ("all 1440 x 1440 (start, end) HH:MM pairs under the real clock in UTC, each start minute one batch, disjoint over shards; "
